@@ -250,5 +250,18 @@ CLAIMED['C12'] = dict(
     technique="TLA+ definitions with Python list semantics + frame-condition laws evaluated by TLC; spec->code cell-by-cell "
               "replay; code->spec apply-trace validation by TLC",
     design="3/C12")
+CLAIMED['C14'] = dict(
+    text="Reshape.tla defines melt, recast, transpose, flatten/unflatten, pivot and unpack; TLC evaluates the inverse laws on "
+         "every small rectangular table x key choice: recast(melt(t)) = t sorted by key with the variable fields in name order "
+         "(unique keys), exactly one melt row per (row, variable) cell, transpose o transpose = identity, "
+         "unflatten(flatten(t), n) = data(t), pivot conserves the total and each cell aggregates exactly the rows carrying that "
+         "pair. Every generated table is replayed on the real melt (key / variables forms), recast (explicit / inferred key), "
+         "transpose, flatten, unflatten (n = 2, 3, 4), pivot, dicts<->fromdicts and columns<->fromcolumns with key cells under "
+         "mixed-type value profiles; the unpack / unpackdict / split / capture / splitdown family on generated sequence cells; "
+         "random unique-key integer tables are recorded with all outputs and validated by ReshapeTrace.",
+    note="Pivot column values and recast variable names are homogeneous (native sorted() is used there); the recast(melt) law "
+         "is stated for unique keys only.",
+    technique="TLA+ definitions + inverse laws evaluated by TLC; spec->code case replay; code->spec trace validation by TLC",
+    design="3/C14")
 
 NOT_APPLICABLE = {}
